@@ -931,6 +931,15 @@ namespace via
             }
           }
 
+          // If parsed the request header and the client is waiting for
+          // permission to send the body, respond if necessary
+          if (request_parsed && (rx_size < content_length) &&
+              request_.expect_continue() && !continue_sent_)
+          {
+            response_code_ = response_status::code::CONTINUE;
+            return Rx::EXPECT_CONTINUE;
+          }
+
           // received buffer contains more than the required data
           std::ptrdiff_t required(content_length -
                                   static_cast<std::ptrdiff_t>(body_.size()));
